@@ -28,6 +28,7 @@ static struct { uint32_t a; int n; uint64_t v; } ST[256]; static int nstores;
 #define JUMP(x) do { jump_flag = 1; jump_target = (uint32_t)(x); } while (0)
 #define cancel_slot ((void)0)
 #define STORE_SLOT_CANCELLED(p, s) do { slot_cancelled = 1; } while (0)
+#define fatal(m) ((void)0)
 #define __NOP ((void)0)
 static inline uint8_t rdb(uint32_t a){ for (int i=nstores-1;i>=0;i--) { if (a - ST[i].a < (uint32_t)ST[i].n) return ST[i].v >> (8*(a-ST[i].a)); } return (uint8_t)(a*37+11); }
 static inline uint64_t ld(uint32_t a, int n){ uint64_t v=0; for(int i=0;i<n;i++) v |= (uint64_t)rdb(a+i) << (8*i); return v; }
